@@ -661,6 +661,31 @@ def oracle_selftest(tier, seed):
                 coverage_extra=dict(oracle_selftest_std_vector_calls=calls))
 
 
+def order_selftest(tier, seed):
+    """The comparison oracle (total order for integers, partial order for floating point; pre-C++20 and <=>-rewritten
+    operator sets) replayed on std::vector itself: libstdc++ must agree with the TLA+ transcription on every pair."""
+    import jobs as Jb
+    import suites
+    ml = 3 if tier == 'quick' else 4
+    rs = [Jb.run_job(suites.order(3, alphabet=(0, 2, 3), flt=True), suites.drv(0, 0, elem=suites.FLT, VECTOR=1, ALLOC=0), 0, None, seed, None, False, None, 'oracle self-test: std::vector<double> C++17'),
+          Jb.run_job(suites.order(3, alphabet=(0, 2, 3), flt=True), suites.drv(0, 0, elem=suites.FLT, VECTOR=1, ALLOC=0, std='c++20'), 0, None, seed, None, False, None, 'oracle self-test: std::vector<double> C++20'),
+          Jb.run_job(suites.order(ml), suites.drv(0, 0, elem=suites.NT, VECTOR=1, std='c++20'), 0, None, seed, None, False, None, 'oracle self-test: std::vector<Tracked> C++20'),
+          Jb.run_job(suites.order(ml), suites.drv(0, 0, elem=suites.INT, VECTOR=1, ALLOC=0, std='c++23'), 0, None, seed, None, False, None, 'oracle self-test: std::vector<int> C++23')]
+    bad = []
+    calls = 0
+    for r in rs:
+        calls += r['ops']
+        for v in r['violations']:
+            if v['property'] == 'C16':
+                v = dict(v)
+                v['check'] = 'ORACLE SELF-TEST on std::vector failed: ' + v['check']
+                v['property'] = 'INTERNAL'
+                bad.append(v)
+    return dict(lines=0, ops=0, restarts=0, skipped=0, sample=[], sigs={}, nlines={}, violations=bad, stims=0, stims_total=0, mc=None, drv='std::vector',
+                drvconf=None, fmode=0, label='comparison-oracle self-test: %d std::vector calls accepted by the C16 checks' % calls,
+                coverage_extra=dict(comparison_oracle_selftest_std_vector_calls=calls))
+
+
 # ------------------------------------------------------------------------------------------------ L2 at design level
 def mc_impl(tier, seed):
     """MC_Impl: TLC executes the implementation-shaped scripts of spec/SVecImpl.tla for every explored state, every
@@ -769,6 +794,7 @@ def shape_ind(tier, seed):
 
 
 EXTRA = {
+    'C16': [order_selftest],
     'C01': [oracle_selftest],
     'C02': [shape_ind],
     'C03': [mc_impl],
